@@ -1,5 +1,37 @@
-(* C19 — property theorems (bootstrap stage; see DESIGN.md section 6). *)
-From Verif Require Import Inflate.
-Theorem C19_spec_inflater_runs : status (inflate [] [3;0]) = Done /\ out (inflate [] [3;0]) = [].
-Proof. vm_compute. split; reflexivity. Qed.
-Print Assumptions C19_spec_inflater_runs.
+(* C19 — property theorems.  Model: WModel/LZ77.v (the Go match finder).  The assembly match finders are checked against the same contract at run time.
+   Only statements, each closed by `exact`, followed by Print Assumptions. *)
+From Verif Require Import LZ77Spec LZ77Proofs.
+Open Scope N_scope.
+
+(* every call of the match finder, for every table content and input: the new tokens are valid
+   where they stand, with distance <= W (4096 or 32768) and <= the bytes before them, and decode
+   to exactly the input they cover *)
+Theorem C19_match_finder_contract : lz77_ok_statement.
+Proof. exact lz77_ok. Qed.
+Print Assumptions C19_match_finder_contract.
+
+Theorem C19_no_out_of_bounds : lz77_no_oob_statement.
+Proof. exact lz77_no_oob. Qed.
+Print Assumptions C19_no_out_of_bounds.
+
+(* the window bound read off the contract *)
+Lemma toks_ok_dist W : forall ts before, toks_ok W before ts ->
+  Forall (fun t => match t with TMatch _ d => d <= W | TLit _ => True end) ts.
+Proof.
+  induction ts as [|t r IH]; intros before H; [constructor|].
+  destruct H as [Ht Hr]. constructor; [|exact (IH _ Hr)].
+  destruct t as [b|len d]; [exact I|]. cbn in Ht. tauto.
+Qed.
+Theorem C19_window : forall flush mask W input processed offset table toks ntok maxToken,
+  offset <= lenN input ->
+  let r := lz77 flush mask W input processed offset table toks ntok maxToken in
+  lz_oob r = false ->
+  exists new_rev, lz_toks r = new_rev ++ toks /\
+    Forall (fun t => match t with TMatch _ d => d <= W | TLit _ => True end) (rev new_rev).
+Proof.
+  intros flush mask W input processed offset table toks ntok maxToken Ho r Hb.
+  destruct (lz77_ok flush mask W input processed offset table toks ntok maxToken Ho Hb)
+    as (new_rev & H1 & _ & _ & _ & _ & Hok & _).
+  exists new_rev. split; [exact H1|]. exact (toks_ok_dist W _ _ Hok).
+Qed.
+Print Assumptions C19_window.
